@@ -29,7 +29,7 @@ EXHAUSTIVE = {"quick": False, "thorough": False}
 PROTECTED = ("markup", "literalLayout", "objectName", "attributeName", "para")
 OTHER = ("dataset", "title", "section", "entityName", "value", "description", "emphasis", "x")
 XSI = "http://www.w3.org/2001/XMLSchema-instance"
-STR_ALPH = ["a", "b", "Z", "0", " ", " ", " ", "\t", "\n", "\xa0", "\xa0", " ", " ", "\x85", "​", "é", "\U0001F600", ".", "<", "&"]
+STR_ALPH = ["a", "b", "Z", "0", " ", " ", " ", "\t", "\n", "\xa0", "\xa0", " ", " ", "\x85", "​", "é", "\U0001F600", ".", "<", "&", "e\u0301", "\u212b"]
 XML_WS = " \t\r\n"
 
 
